@@ -22,7 +22,8 @@ def parseOpts (j : Json) : R Opts := do
          vlf := ← asBool (fldD j "vlf" (Json.bool false)),
          extras := ← asChars (fldD j "extras" (Json.str "")),
          maxPatterns := ← asOpt asNat (fldD j "max_patterns" Json.null),
-         minStrings := ← asNat (fldD j "min_strings" (ofNat 1)) }
+         minStrings := ← asNat (fldD j "min_strings" (ofNat 1)),
+         sizes := { maxStringsInGroup := ← asNat (fldD j "max_strings_in_group" (ofNat 10)) } }
 
 def atomJson : Atom → Json
   | .code k => Json.arr #[Json.str "code", ofChars [k]]
@@ -44,7 +45,7 @@ def handle (op : String) (j : Json) : Option (R Json) :=
       let items ← asList (fun it => do
           let a ← asArr it
           pure ((← asOpt asChars a[0]!), (← asNat a[1]!))) (← fld j "items")
-      match extract T o items with
+      match extract T o.norm items with
       | none => throw "AssertionError"
       | some (ps, E, wsWrap) =>
         pure (Json.mkObj [
@@ -77,7 +78,7 @@ def handle (op : String) (j : Json) : Option (R Json) :=
           let a ← asArr e
           pure ((← asChars a[0]!), (← asNat a[1]!)))) (← fld j "picks")
       let pick : Pick := fun ev _ _ => picks.getD ev []
-      match extractSampled T o cfg pick items with
+      match extractSampled T o.norm cfg pick items with
       | none => throw "AssertionError"
       | some (ps, E, wsWrap) =>
         pure (Json.mkObj [
